@@ -350,6 +350,30 @@ func c32() {
 			run.Violation(v.key, v.what, v.replay)
 		}
 	}
+	// identity-sum prefixes (API): signatures that sum to the group identity, at every position of a
+	// batch, followed by 0-2 valid entries, for every batch size (same batch and split)
+	for _, ic := range identityCases(func(k, m int) string { return w.sigOf[k][m] }, false) {
+		n := len(ic.ki)
+		pubs, hashes := make([]string, n), make([]string, n)
+		allValid := true
+		for i := 0; i < n; i++ {
+			pubs[i], hashes[i] = w.keys[ic.ki[i]].Pub, w.msgs[ic.mi[i]]
+			if !w.vcache.ok(pubs[i], ic.sigs[i], hashes[i]) {
+				allValid = false
+			}
+		}
+		for b := 1; b <= n; b++ {
+			res := aggregateAPI(pubs, ic.sigs, hashes, b)
+			run.Add(0, 0, 1)
+			run.Outcome(fmt.Sprintf("api/identity-sum-prefix:%s/valid=%v/%s", ic.class, allValid, res))
+			if (res == "accept") != allValid {
+				vios = append(vios, vio{1 << 40, "C32:aggregate-verify:identity-sum-prefix:" + ic.class,
+					fmt.Sprintf("aggregate Verify = %s, all individually valid = %v: %s, batch=%d", res, allValid, ic.desc, b),
+					map[string]any{"site": "BLS0ChainAggregateSignatureScheme", "public_keys": pubs, "hashes": hashes, "signatures": ic.sigs, "batch_size": b, "layout": ic.desc}})
+			}
+		}
+	}
+	run.Bounds["identity_sum_prefixes"] = "{X,-X; -X,X; identity signature; two identity signatures; X,Y,-X-Y} after 0-1 valid and before 0-2 valid entries, 2 key/message assignments, every batch size 1..n; also through VerifyTickets and ValidateTransactions"
 	reportOrdered()
 	run.Sample(map[string]any{"entries": "keys [0 1] msgs [0 0]", "transformation": xform{"offset", []int{1, -1}}, "meaning": "s1+delta, s2-delta"})
 
@@ -360,4 +384,68 @@ func c32() {
 	}
 	listOutcomes(run)
 	run.Finish()
+}
+
+// identityCase is an entry vector whose invalid signatures sum to the group identity.
+type identityCase struct {
+	ki, mi      []int
+	sigs        []string
+	class, desc string
+}
+
+func g1Hex(g *hbls.G1) string { return hbls.CastToSign(g).SerializeToHexStr() }
+
+// identityCases enumerates: [0-1 valid] + identity-sum block + [0-2 valid], for two key/message
+// assignments (alternating, all the same); sameMsg forces message 0 everywhere (tickets).
+func identityCases(validSig func(k, m int) string, sameMsg bool) []identityCase {
+	var x, y, nx, nxy, zero hbls.G1
+	if err := x.HashAndMapTo([]byte("verif-X")); err != nil {
+		ev.Fatal("X: %v", err)
+	}
+	if err := y.HashAndMapTo([]byte("verif-Y")); err != nil {
+		ev.Fatal("Y: %v", err)
+	}
+	hbls.G1Neg(&nx, &x)
+	hbls.G1Add(&nxy, &x, &y)
+	hbls.G1Neg(&nxy, &nxy)
+	zero.Clear()
+	blocks := []struct {
+		class string
+		sigs  []string
+	}{
+		{"pair", []string{g1Hex(&x), g1Hex(&nx)}},
+		{"pair", []string{g1Hex(&nx), g1Hex(&x)}},
+		{"identity-signature", []string{g1Hex(&zero)}},
+		{"identity-signature", []string{g1Hex(&zero), g1Hex(&zero)}},
+		{"triple", []string{g1Hex(&x), g1Hex(&y), g1Hex(&nxy)}},
+	}
+	var out []identityCase
+	for assign := 0; assign < 2; assign++ {
+		for pre := 0; pre <= 1; pre++ {
+			for post := 0; post <= 2; post++ {
+				for _, bl := range blocks {
+					n := pre + len(bl.sigs) + post
+					c := identityCase{class: bl.class}
+					for i := 0; i < n; i++ {
+						k, m := i%2, (i/2+i)%2
+						if assign == 1 {
+							k, m = 0, 0
+						}
+						if sameMsg {
+							m = 0
+						}
+						c.ki, c.mi = append(c.ki, k), append(c.mi, m)
+						if i >= pre && i < pre+len(bl.sigs) {
+							c.sigs = append(c.sigs, bl.sigs[i-pre])
+						} else {
+							c.sigs = append(c.sigs, validSig(k, m))
+						}
+					}
+					c.desc = fmt.Sprintf("%d valid, then %s block of %d signatures summing to the identity, then %d valid; keys=%v msgs=%v", pre, bl.class, len(bl.sigs), post, c.ki, c.mi)
+					out = append(out, c)
+				}
+			}
+		}
+	}
+	return out
 }
